@@ -15,6 +15,7 @@ from fgutils.parse import Parser
 from fgutils.proxy import Proxy, MolProxy, ReactionProxy, ProxyGroup, ProxyGraph, build_graphs
 
 ID = "C14"
+REPEAT_PROBE = True   # engine: repeat 1 call in 5 after editing its first result in place (purity / no shared state)
 PROPS = "Props/C14.v"
 MODEL_FILES = ["Model/ProxyGen.v", "Gen/ProxyDA.v", "Spec/ProxyGenCheck.v", "Spec/ProxyRefCheck.v", "Spec/ProxyParserCheck.v"]
 IMPORTS = "From FGV Require Import Base.NXMulti Model.Proxy Model.ProxyTerms Model.ProxyGen Spec.ProxyGenSpec Spec.ProxyGenCheck Spec.ProxyRefCheck Spec.ProxyParserCheck Gen.ProxyDA."
